@@ -37,10 +37,10 @@ Theorem C05_flags_are_enough : forall st current, NoDup (map fst current) -> Cle
   forall g, file_get (fs_disk (flush current st)) g = file_get (rewrite_all current (fs_disk st)) g.
 Proof. exact flush_is_rewrite_all. Qed.
 
-Theorem C05_histories_with_saves : forall (S X : Type) (step : S -> X -> S) (want : S -> files),
-  (forall s, NoDup (map fst (want s))) ->
-  forall ops s st, Reached st (want s) ->
-  Reached (snd (save_run step want ops s st)) (want (fst (save_run step want ops s st))).
+Theorem C05_histories_with_saves : forall (S X : Type) (step : S -> X -> S) (cur : S -> files) (always : S -> list str),
+  (forall s, NoDup (map fst (cur s))) ->
+  forall ops s st, Reached st (cur s) ->
+  Reached (snd (save_run step cur always ops s st)) (cur (fst (save_run step cur always ops s st))).
 Proof. exact @save_run_reached. Qed.
 
 Example C05_nonvacuous :
@@ -48,3 +48,25 @@ Example C05_nonvacuous :
   = Some (XList [XInt (-3)%Z; XFix 1500%Z; XStr [34%N; 128512%N]; XList [XNull; XDate [50%N]]; XBool true])
   /\ fix_lit 1500%Z = [49%N; 46%N; 53%N] /\ fix_lit (-1000)%Z = [45%N; 49%N; 46%N; 48%N].
 Proof. repeat split; vm_compute; reflexivity. Qed.
+
+(* Known class: sub-stores whose items do not all come before the items of the documents
+   loaded after them, or that refer to items of later documents.  Loading merges the
+   sub-store documents first, so such a store does not come back as it was. *)
+Definition Known_C05_substore_order (s : dstore) (ow : owners) : bool := negb (arranged s ow).
+
+Definition witness_store : dstore :=
+  mkdstore None [Some (mkdres [114%N; 48%N] [97%N; 98%N] None)] []
+    [Some (mkdann None [] 0 [DRes 0]);          (* root, no id: "!A0" *)
+     Some (mkdann None [] 0 [DRes 0]);          (* in the sub-store, no id: "!A1" *)
+     Some (mkdann (Some [97%N; 50%N]) [] 0 [DAnn 0])].
+Definition witness_owners : owners :=
+  mkown [(Some [115%N], [115%N; 46%N; 106%N; 115%N; 111%N; 110%N])] [Some 0] [] [None; Some 0; None].
+
+Lemma Known_C05_substore_order_witness :
+  Known_C05_substore_order witness_store witness_owners = true
+  /\ wf_dstore witness_store = true
+  /\ exists d, encode_o witness_store witness_owners = Some d /\ decode_o d = None.
+Proof.
+  split; [vm_compute; reflexivity|]. split; [vm_compute; reflexivity|].
+  eexists. split; [vm_compute; reflexivity|]. vm_compute. reflexivity.
+Qed.
